@@ -110,7 +110,8 @@ SendTree ==
               \o (IF fwd THEN <<[opts |-> <<<<"name", "fwd">>>> \o Auto, nets |-> <<<<<<"id", "5">>>>>>, protos |-> Protos,
                                  apps |-> <<<<<<"name", "forward">>, <<"ip", FwdIp>>, <<"to", IF byName THEN "rcv" ELSE RcvIp>>,
                                               <<"local_port", Port>>, <<"remote_port", CapPort>>>>>>]>> ELSE <<>>)
-              \o <<[opts |-> <<<<"name", "rcv">>>> \o Auto, nets |-> <<<<<<"id", "5">>>>>>, protos |-> Protos,
+              \* (with two networks the receiver lists the network of its address SECOND)
+              \o <<[opts |-> <<<<"name", "rcv">>>> \o Auto, nets |-> (IF twoNets THEN <<<<<<"id", "1">>>>>> ELSE <<>>) \o <<<<<<"id", "5">>>>>>, protos |-> Protos,
                     apps |-> <<Swap(<<<<"name", "capture">>, <<"ip", RcvIp>>, <<"port", CapPort>>, <<"type", "count">>,
                                       <<"message_count", ToString(IF count = 0 THEN 1 ELSE count)>>>>)>>]>> ]
 \* two machines playing ping-pong: the starter sends a counter of 255, each side sends it back decremented, the
@@ -125,7 +126,7 @@ PPTree ==
                  protos |-> Protos,
                  apps |-> <<Swap(<<<<"name", "ping_pong">>, <<"starter", "true">>, <<"ip", PingIp>>, <<"to", IF byName THEN "pong" ELSE PongIp>>,
                                    <<"local_port", Port>>, <<"remote_port", Port2>>>>)>>],
-                [opts |-> <<<<"name", "pong">>>> \o Auto, nets |-> <<<<<<"id", "5">>>>>>, protos |-> Protos,
+                [opts |-> <<<<"name", "pong">>>> \o Auto, nets |-> (IF twoNets THEN <<<<<<"id", "1">>>>>> ELSE <<>>) \o <<<<<<"id", "5">>>>>>, protos |-> Protos,
                  apps |-> <<Swap(<<<<"name", "ping_pong">>, <<"starter", "false">>, <<"ip", PongIp>>, <<"to", IF byName THEN "ping" ELSE PingIp>>,
                                    <<"local_port", Port2>>, <<"remote_port", Port>>>>)>>]>> ]
 Tree == IF kind = "pp" THEN PPTree ELSE SendTree
